@@ -1,6 +1,8 @@
 import RedisVerif.Driver.Codec
 import RedisVerif.Model.Stream
 import RedisVerif.Model.StreamActor
+import RedisVerif.Model.StreamNode
+import RedisVerif.Driver.ManifestJson
 
 /-
   C12 / C13 sub-driver (stateful): one process (`StreamingPersistence` + `Compactor`) on an
@@ -47,6 +49,15 @@ import RedisVerif.Model.StreamActor
     AREC                                                → recovery of the actor's store image
     ALEDGER                                             → sent=<n> accepted=<n> acked=<n> pending=<n> inflight=<n>
                                                           rejected=<n> skipped=<n> dropped=<n>
+
+  A node over several lives (M4c, `Model/StreamNode.lean`): the A-events since the last XNEW / ALIFE are recorded;
+    ALIFE <c|-> <0|1> <intervalNs> <maxSize> <maxDeltas> <backpressure> <cap> <now> <nf> (<idx> <fault>)*
+                                                        → the process of the current life died at store call c (1: inside a
+                                                          put, a torn object stays; `-`: it ran to the end of its events); a NEW
+                                                          process with this configuration starts on the store that is left:
+                                                          ok replay=<0|1> segs=[..]
+    AHIST                                               → fold <per-key merge of every update confirmed in any life so far>
+                                                          exact=<0|1> (the instance of `C12.node_history_exact`)
 -/
 namespace RedisVerif.Driver.C12
 open RedisVerif RedisVerif.Driver RedisVerif.Stream
@@ -69,6 +80,10 @@ structure St where
   afailAll : Bool := false
   act : StreamActor.A := default
   wb : StreamActor.WB := StreamActor.WB.init
+  /-- M4c: the events of the current life (newest first), its clock reading at start, what earlier lives left -/
+  nevs : List StreamNode.NEv := []
+  anow : Nat := 0
+  hist : StreamNode.Hist := { store := [], confirmed := [] }
   deriving Inhabited
 
 def init : St := { base := [], rid := 0, faults := [], ops := [], sys := Sys.init [] 0, rootFaults := [], rootOps := [], restarted := false }
@@ -156,6 +171,12 @@ def actorDrain (F : Oracle) (cfg : StreamActor.WbCfg) (cap : Nat) : Nat → Stre
   | n + 1, a =>
     if a.alive && !a.mailbox.isEmpty then actorDrain F cfg cap n (StreamActor.step F cfg cap a (.actor 0)) else a
 
+/-- `actorDrain` together with the number of messages it handled -/
+def actorDrainC (F : Oracle) (cfg : StreamActor.WbCfg) (cap : Nat) : Nat → StreamActor.A → Nat → StreamActor.A × Nat
+  | 0, a, k => (a, k)
+  | n + 1, a, k =>
+    if a.alive && !a.mailbox.isEmpty then actorDrainC F cfg cap n (StreamActor.step F cfg cap a (.actor 0)) (k + 1) else (a, k)
+
 def sdelta (line : String) (kw : String) : Option StreamActor.SDelta :=
   let p : P StreamActor.SDelta := do
     expect kw
@@ -168,14 +189,15 @@ def sdelta (line : String) (kw : String) : Option StreamActor.SDelta :=
 def stepX (s : St) (line : String) : Option (St × String) :=
   let F : Oracle := if s.afailAll then (fun _ => Fault.fail) else oracleOf s.afaults
   let ev (e : StreamActor.Ev) : Option (St × String) :=
-    some ({ s with act := StreamActor.step F s.acfg s.acap s.act e }, "ok")
+    some ({ s with act := StreamActor.step F s.acfg s.acap s.act e, nevs := .pipe e :: s.nevs }, "ok")
   match tokens line with
   | "XNEW" :: r :: a :: b :: c :: d :: e :: f :: nf :: rest =>
     match r.toNat?, a.toNat?, b.toNat?, c.toNat?, d.toNat?, e.toNat?, f.toNat?, nf.toNat?, parseFaults rest with
     | some rid, some iv, some ms, some md, some bp, some cap, some now, some n, some fs =>
       if fs.length = n then
         some ({ s with rid := rid, acfg := { intervalNs := iv, maxSize := ms, maxDeltas := md, backpressure := bp },
-                       acap := cap, afaults := fs, afailAll := false, act := StreamActor.A.init [] rid now, wb := StreamActor.WB.init }, "ok")
+                       acap := cap, afaults := fs, afailAll := false, act := StreamActor.A.init [] rid now, wb := StreamActor.WB.init,
+                       nevs := [], anow := now, hist := { store := [], confirmed := [] } }, "ok")
       else some (s, "bad-op")
     | _, _, _, _, _, _, _, _, _ => some (s, "bad-op")
   | ["XCAP"] => some (s, toString StreamActor.channelCapacity)
@@ -249,17 +271,20 @@ def stepX (s : St) (line : String) : Option (St × String) :=
   | "ASEND" :: _ =>
     match sdelta line "ASEND" with
     | some d =>
-      some ({ s with act := StreamActor.step F s.acfg s.acap s.act (.send d) }, if s.act.bridge then "ok" else "err disconnected")
+      some ({ s with act := StreamActor.step F s.acfg s.acap s.act (.send d), nevs := .pipe (.send d) :: s.nevs },
+        if s.act.bridge then "ok" else "err disconnected")
     | none => some (s, "bad-op")
   | ["ADRAIN"] => ev .drain
   | ["ATICK"] => ev .bridgeTick
   | ["ASTOPBRIDGE"] => ev .stopBridge
   | ["AREQSHUTDOWN"] => ev .reqShutdown
   | ["ARUN"] =>
-    let a' := actorDrain F s.acfg s.acap (s.act.mailbox.length + 1) s.act
-    some ({ s with act := a' }, s!"calls={a'.w.calls} segs={showSegs a'.w.store}")
+    let (a', k) := actorDrainC F s.acfg s.acap (s.act.mailbox.length + 1) s.act 0
+    some ({ s with act := a', nevs := List.replicate k (.pipe (.actor 0)) ++ s.nevs }, s!"calls={a'.w.calls} segs={showSegs a'.w.store}")
   | ["ARUNQ"] =>
-    some ({ s with act := actorDrain F s.acfg s.acap (s.act.mailbox.length + 1) s.act }, "ok")
+    let (a', k) := actorDrainC F s.acfg s.acap (s.act.mailbox.length + 1) s.act 0
+    some ({ s with act := a',
+                   nevs := List.replicate k (.pipe (.actor 0)) ++ s.nevs }, "ok")
   -- the object store itself (InMemory / LocalFs / harness FaultStore vs `Stream.World`), names as codes,
   -- contents as tags
   | ["SNEW"] => some ({ s with act := StreamActor.A.init [] s.rid 0 }, "ok")
@@ -343,8 +368,32 @@ def stepX (s : St) (line : String) : Option (St × String) :=
     | some target, some mn, some mx, some now, some ttl, some maxSegs, some sz =>
       let cfg : CompactCfg := { target := target, minSegs := mn, maxPer := mx, now := now, ttlMs := ttl }
       let r := compactIfNeeded F cfg maxSegs sz s.act.w
-      some ({ s with act := { s.act with w := r.1 } }, s!"calls={r.1.calls} segs={showSegs r.1.store}")
+      some ({ s with act := { s.act with w := r.1 }, nevs := .compactPass cfg maxSegs sz :: s.nevs },
+        s!"calls={r.1.calls} segs={showSegs r.1.store}")
     | _, _, _, _, _, _, _ => some (s, "bad-op")
+  | "ALIFE" :: c :: p :: a :: b :: c2 :: d :: e :: f :: nf :: rest =>
+    match p.toNat?, a.toNat?, b.toNat?, c2.toNat?, d.toNat?, e.toNat?, f.toNat?, nf.toNat?, parseFaults rest with
+    | some torn, some iv, some ms, some md, some bp, some cap, some now, some n, some fs =>
+      if fs.length ≠ n then some (s, "bad-op") else
+      let F0 := oracleOf s.afaults
+      let F' : Oracle := match c.toNat? with
+        | some ci => fun n => if n = ci then (if torn != 0 then .crashPartial else .crash) else F0 n
+        | none => F0
+      let life : StreamNode.Life := { F := F', wcfg := s.acfg, cap := s.acap, now := s.anow, evs := s.nevs.reverse }
+      let h' := StreamNode.runLife s.rid s.hist life
+      -- self-check: without a crash the recorded events reproduce the store the driver stepped to
+      let replay := c.toNat?.isSome || decide (h'.store = s.act.w.store)
+      some ({ s with acfg := { intervalNs := iv, maxSize := ms, maxDeltas := md, backpressure := bp }, acap := cap,
+                     afaults := fs, afailAll := false, act := StreamActor.A.init h'.store s.rid now,
+                     nevs := [], anow := now, hist := h' },
+            s!"ok replay={b01 replay} segs={showSegs h'.store}")
+    | _, _, _, _, _, _, _, _, _ => some (s, "bad-op")
+  | ["AHIST"] =>
+    let conf := s.hist.confirmed ++ s.act.acked
+    let exact := match recover s.act.w.store s.rid with
+      | .ok r => decide (foldState r.updates = foldState conf)
+      | .error _ => false
+    some (s, s!"fold {showDeltas (foldState conf)} exact={b01 exact}")
   | ["AREC"] => some (s, showRec (recover s.act.w.store s.rid))
   | ["AMAN"] => some (s, showManifest s.act.w.store)
   | ["ALEDGER"] =>
@@ -353,6 +402,9 @@ def stepX (s : St) (line : String) : Option (St × String) :=
   | _ => none
 
 def step (s : St) (line : String) : St × String :=
+  match MJ.step line with
+  | some o => (s, o)
+  | none =>
   match stepX s line with
   | some r => r
   | none =>
